@@ -218,9 +218,9 @@ pub fn run(ck: &mut Check) {
             oracle(c, cx)
         },
     );
-    let n = ck.n(60_000, 2_000_000);
+    let n = ck.n(150_000, 2_000_000);
     ck.prop("random_events", n, || (pdu::loose_event(), any::<bool>()).prop_map(|(pdu, because)| RedactCase { pdu, because }), oracle);
-    let n = ck.n(20_000, 500_000);
+    let n = ck.n(50_000, 500_000);
     ck.prop("wellformed_pdus", n, || (pdu::pdu(), any::<bool>()).prop_map(|(pdu, because)| RedactCase { pdu, because }), oracle);
     for cls in ["v1-5", "v6-7", "v8", "v9-10", "v11"] {
         ck.floor("random_events", cls, 2000);
